@@ -160,6 +160,11 @@ def apply_transform(spec, feats):
             if f["cols"][2] == spec["from"]:
                 f["cols"][2] = spec["to"]
             out.append(f)
+        elif kind == "append_inplace":
+            v = aget(f, spec["key"])
+            if v is not None:
+                v.append(spec["val"])
+            out.append(f)
         else:
             raise ValueError(kind)
     return out
@@ -386,8 +391,9 @@ class Model(object):
             g = aget(f, gk)
             if not t or not g:
                 continue
-            t, g = t[0], g[0]
-            tx.setdefault(t, {"g": g, "ex": []})["ex"].append(f)
+            g = g[0]
+            for t1 in (t if f.get("merged") else t[:1]):  # an exon merged from several lines belongs to each of their transcripts
+                tx.setdefault(t1, {"g": g, "ex": []})["ex"].append(f)
             gn.setdefault(g, []).append(f)
         new = []
         if not self.gtf["dit"]:
